@@ -212,6 +212,9 @@ fn corrupt(r: &Response, rng: &mut SimRng, unspent: &BTreeSet<u64>, out_mmr_size
 				out.bytes[8] = out.bytes[8].wrapping_add(1);
 			}
 			kind = "identifier";
+			if std::env::var("VERIF_DEBUG").is_ok() {
+				eprintln!("  corrupt identifier: segment {:?} -> height {} idx bytes {:?}; leaves {} hashes {} proof hashes {} mmr {}", ident_key(&r.id), out.bytes[0], &out.bytes[1..9], r.n_leaves, r.n_hashes, r.proof_hashes, out_mmr_size);
+			}
 		}
 		5 if r.n_leaves > 1 && fixed => {
 			// omit one leaf the bitmap marks unspent (count, position and data removed)
@@ -555,6 +558,18 @@ pub fn run(world: &World, cfg: &RunCfg, seed: u64, tag: &str) -> Outcome {
 						bump(&mut probes, "early_segment_refused");
 					}
 					(Some(kind), Ok(())) => {
+						// a changed identifier can turn a segment into exactly the honest segment of the
+						// new identifier (two fully spent neighbours share their first unpruned parent and
+						// its proof): that is a valid segment, not a corrupted one
+						let same_as_honest = kind == "identifier" && r.bytes.len() >= 9 && {
+							let mut b8 = [0u8; 8];
+							b8.copy_from_slice(&r.bytes[1..9]);
+							let nid = SegmentTypeIdentifier::new(r.id.segment_type.clone(), SegmentIdentifier { height: r.bytes[0], idx: u64::from_be_bytes(b8) });
+							serve(&segmenter, &nid).map(|h| h.bytes == r.bytes).unwrap_or(false)
+						};
+						if same_as_honest {
+							bump(&mut probes, "identifier_change_gives_another_honest_segment");
+						} else
 						// hashes that the root does not depend on are not bound by validation; everything else is
 						if kind == "pruned-subtree-hash" || kind == "companion-root" && key.0 == 1 {
 							bump(&mut probes, "unbound_corruption_accepted");
